@@ -137,6 +137,17 @@ def run(ctx):
         elif not has:
             detail += " — expected a call to one of %s" % [sorted(r) for r in need]
         ctx.ob("R-C01.2", fn, "forwards-like-named", ok, detail)
+        # ... on every path: no answer is given without consulting a read provider (a shortcut that answers from a
+        # statistic — table count, approximate length, "memtable is empty" — is a different, weaker question)
+        if called:
+            # (a write transaction answers point reads from its own overlay first: that lookup is a consult too, R-C08.1)
+            overlay = [b for b, t in fn.calls() if A.cname(t).endswith("Memtable::get")]
+            r = A.reach(fn, [0], avoid=[b for b, _, _ in called] + overlay + list(A.error_starts(fn)))
+            early = [x for x in fn.return_blocks() if x in r]
+            ctx.ob("R-C01.2", fn, "answers-only-after-forwarding", not early,
+                   "every non-error return follows a call to {%s}" % ", ".join(sorted(leafs)) if not early else
+                   "%s can answer without consulting the tree / view it wraps (a path to a return passes none of {%s}): the answer on that path is not the like-named read" % (fn.id, ", ".join(sorted(leafs))),
+                   fn.loc(early[0]) if early else "")
         if name in POINT or name in ("range", "prefix"):
             # the key / range parameter is what reaches the callee
             kidx = fn.argc  # last parameter is the key / range / prefix
